@@ -134,4 +134,58 @@ Section GenRun.
       | _ => let p := parts_rms_then_scale errs2 fac2 ref in Some [fst p; snd p]
       end
     end.
+
+  (* ---- C05: interpolation between two solver states (one-step refinement) ---- *)
+  Definition enc_post (cf : @config F) (p : @post F) : list F :=
+    let s := cf_shape cf in
+    enc_fnormal s (p_marg p)
+    ++ (if is_smoother (cf_strat cf) then enc_fcond s (p_cond p) else []).
+  Definition g_interp (cf : @config F) (st0 st1 : @sstate F) (t : F) : option (list F) :=
+    match interpolate_fwd ginv cf st0 st1 t with
+    | None => None
+    | Some (ip, sf, ifr) =>
+      Some (enc_post cf (st_post ip) ++ enc_post cf (st_post sf) ++ enc_post cf (st_post ifr))
+    end.
+
+  (* ---- C05/C03: exact Gaussian smoothing on the union of step ends and
+     output times.  nodes: (dt from previous node, squared scale per block of the
+     transition, Some filtering marginal at a step end | None at an output time
+     that is not a step end).  All covariances are multiplied by sc2. ---- *)
+  Fixpoint union_filter (s : shape) (base2 : list F) (prev : list normal)
+           (nodes : list (F * list F * option (list normal)))
+    : list (list normal) * list (list cond) :=
+    match nodes with
+    | [] => ([], [])
+    | (dt, out2, o) :: r =>
+      let N := sh_N s in let c := sh_c s in
+      let tr := map (c_plain N N c) (transition s base2 dt out2) in
+      let here := match o with
+                  | Some m => m
+                  | None => map2 (fun k p => kf_predict N c (c_A k) (c_b k) (c_Q k) p) tr prev
+                  end in
+      let rest := union_filter s base2 here r in
+      (here :: fst rest, tr :: snd rest)
+    end.
+
+  Definition g_spec_union (cf : @config F) (sc2 : list F) (f0 : list normal)
+             (nodes : list (F * list F * option (list normal))) (smooth : bool)
+    : option (list F) :=
+    let s := cf_shape cf in
+    let N := sh_N s in let c := sh_c s in let nb := sh_blocks s in
+    let fl := union_filter s (cf_base2 cf) f0 nodes in
+    let filts := map (f_rescale s sc2) (f0 :: fst fl) in
+    let trs := map (fun t => map2 (fun k c2 => c_rescale_noise N c2 k) t sc2) (snd fl) in
+    let dflt := mkN [] [] in
+    let dfc := mkC [] [] [] [] [] in
+    if smooth then
+      let per_block :=
+          map (fun a => rts_pass ginv N c (map (fun f => nth a f dflt) filts)
+                                 (map (fun t => nth a t dfc) trs)) (seq 0 nb) in
+      if forallb (fun o => match o with Some _ => true | None => false end) per_block
+      then
+        let bl := map (fun o => match o with Some l => l | None => [] end) per_block in
+        Some (flat_map (fun k => flat_map (fun l => enc_normal N c (nth k l dflt)) bl)
+                       (seq 0 (S (length nodes))))
+      else None
+    else Some (flat_map (enc_fnormal s) filts).
 End GenRun.
